@@ -2,7 +2,7 @@
 # passes on the unchanged tree; PENDING for claimed-in-design but unbuilt.
 
 ENGINES = [
- {"name": "concsim", "path": "sim/c07.go + tools/instrument + race/", "serves_properties": ["C07"],
+ {"name": "concsim", "path": "sim/c07.go + sim/stress.go + tools/instrument", "serves_properties": ["C07"],
   "kind_free_text": "baton-passing scheduler over an AST-instrumented scratch copy of the working tree (schedule point before every statement, lock acquisition routed through the simulator); plan-driven burst preemptions and re-entrant operator calls at the ResponseWriter/handler seams; history checked with porcupine against the sequential real code; -race stress companion for the data-race clause"},
  {"name": "histsim", "path": "sim/hist.go sim/c09.go sim/c11.go sim/c12.go", "serves_properties": ["C06", "C08", "C09", "C11", "C12"],
   "kind_free_text": "seeded call histories on stateful middlewares with faults placed inside them: snapshot/restore (C06), rejected Reconfigure (C08), SetDebug/Reconfigure sequences against the documented state machine (C09), scripted handler + recording writer (C11), memory-mutation faults on every slice shared with callers (C12)"},
